@@ -26,7 +26,7 @@ TInit == /\ tid \in 1..NTraces /\ l = 1
             /\ term = TermNew(c.w)
             /\ shown = NoFrame /\ sinceAdv = -1 /\ plog = <<>>
             /\ last = [op |-> "none", arg |-> 0, dt |-> 0, gap |-> -1, frames |-> <<>>, ops |-> <<>>, exc |-> "",
-                       progress |-> 0, maxsteps |-> c.max0, msg |-> <<"m">>]
+                       progress |-> 0, maxsteps |-> c.max0, msg |-> <<"m">>, pprog |-> 0, pmax |-> c.max0]
 
 Adv == l' = l + 1 /\ tid' = tid
 Is(op) == l <= Len(T) /\ E.op = op
@@ -43,10 +43,9 @@ SameFrames(fs, gs) == /\ Len(fs) = Len(gs)
                                                ELSE [fs[k] EXCEPT !.lines = <<>>] = [gs[k] EXCEPT !.lines = <<>>]
 
 \* which violation of a clause this is (discriminates the defects found on the pinned tree from anything else)
-Where == cfg.mode \o "/" \o cfg.fmt
-LineKey == IF cfg.fmt = "two" /\ bar.writes = 0 THEN "multiline-first-frame" ELSE Where
-OwnLineKey == IF E.progress = 0 /\ plog # <<>> THEN "second-frame-at-step-0" ELSE Where
-FinishKey == IF Plain /\ ~(IsFrame(shown') /\ shown'.cur = E.progress) THEN "plain-final-frame-skipped" ELSE Where
+Where == cfg.mode
+OwnLineKey == IF E.progress = 0 /\ plog # <<>> THEN "second-frame-at-step-0" ELSE "other"
+FinishKey == IF Plain /\ E.frames = <<>> THEN "plain-final-frame-skipped" ELSE Where
 
 TStart == /\ l = 1 /\ Is("new") /\ Adv
           /\ term' = ApplyOps(term, E.ops)
@@ -55,13 +54,25 @@ TStart == /\ l = 1 /\ Is("new") /\ Adv
           /\ UNCHANGED <<cfg, sec, shown, sinceAdv, plog>>
           /\ Check(tid, l, "H.init", "", OnlyPlain(E.ops) /\ Screen(term') = Visible(FoldAll(cfg.pre, cfg.w)))
 
+\* set_message: not expected to write (A-clause); if an implementation redraws here, the frames count like any other
 TMsg == /\ l > 1 /\ Is("msg") /\ Adv
         /\ bar' = [bar EXCEPT !.msg = E.msg]
         /\ term' = ApplyOps(term, E.ops)
-        /\ last' = [last EXCEPT !.op = "msg", !.arg = 0, !.dt = 0, !.gap = -1, !.frames = <<>>, !.ops = E.ops, !.msg = E.msg]
-        /\ UNCHANGED <<cfg, sec, shown, sinceAdv, plog>>
+        /\ shown' = ShownAfter("msg", E.frames)
+        /\ plog' = plog \o LinesOf(E.frames)
+        /\ last' = [op |-> "msg", arg |-> 0, dt |-> 0, gap |-> -1, frames |-> E.frames, ops |-> E.ops, exc |-> E.exc,
+                    progress |-> E.progress, maxsteps |-> E.maxsteps, msg |-> E.msg,
+                    pprog |-> last.progress, pmax |-> last.maxsteps]
+        /\ UNCHANGED <<cfg, sec, sinceAdv>>
         /\ Check(tid, l, "P.completes", E.exc, E.exc = "")
-        /\ Check(tid, l, "H.msg.silent", "", E.ops = <<>> /\ E.frames = <<>>)
+        /\ Check(tid, l, "P.quiet", E.op, QuietNothing')
+        /\ Check(tid, l, "P.frame.shape", "", FrameShape')
+        /\ Check(tid, l, "P.frame.barwidth", "", BarWidthOK')
+        /\ Check(tid, l, "P.frame.step", "", StepOK')
+        /\ Check(tid, l, "P.frame.percent", "", PercentOK')
+        /\ Check(tid, l, "P.ansi.line", Where, AnsiLine')
+        /\ Check(tid, l, "P.plain.ownline", "other", PlainOwnLine')
+        /\ Note(tid, l, "A.msg.silent", E.ops = <<>> /\ E.frames = <<>>)
 
 TCall == /\ l > 1 /\ l <= Len(T) /\ E.op \in Ops /\ Adv
          /\ \E r \in {CallResult(E.op, E.arg, Tick(bar, E.dt), sec)} :
@@ -71,20 +82,21 @@ TCall == /\ l > 1 /\ l <= Len(T) /\ E.op \in Ops /\ Adv
               /\ sinceAdv' = SinceAdvAfter(E.op, E.frames, E.dt)
               /\ plog' = plog \o LinesOf(E.frames)
               /\ last' = [op |-> E.op, arg |-> E.arg, dt |-> E.dt, gap |-> CapAdd(sinceAdv, E.dt), frames |-> E.frames,
-                          ops |-> E.ops, exc |-> E.exc, progress |-> E.progress, maxsteps |-> E.maxsteps, msg |-> E.msg]
+                          ops |-> E.ops, exc |-> E.exc, progress |-> E.progress, maxsteps |-> E.maxsteps, msg |-> E.msg,
+                          pprog |-> last.progress, pmax |-> last.maxsteps]
               /\ UNCHANGED cfg
               /\ Check(tid, l, "P.completes", E.exc, E.exc = "")
               /\ Check(tid, l, "P.quiet", E.op, QuietNothing')
-              /\ IF Plain THEN Check(tid, l, "P.plain.nocontrol", Where, OnlyPlain(E.ops))
+              /\ IF Plain THEN Check(tid, l, "P.plain.nocontrol", "", OnlyPlain(E.ops))
                  ELSE Check(tid, l, "H.ops.known", "", AllKnown(E.ops))
-              /\ Check(tid, l, "P.frame.shape", Where, FrameShape')
-              /\ Check(tid, l, "P.frame.barwidth", Where, BarWidthOK')
-              /\ Check(tid, l, "P.frame.step", Where, StepOK')
-              /\ Check(tid, l, "P.frame.percent", Where, PercentOK')
-              /\ Check(tid, l, "P.throttle", Where, ThrottleOK')
-              /\ Check(tid, l, "P.max.draws", Where, MaxDraws')
+              /\ Check(tid, l, "P.frame.shape", "", FrameShape')
+              /\ Check(tid, l, "P.frame.barwidth", "", BarWidthOK')
+              /\ Check(tid, l, "P.frame.step", "", StepOK')
+              /\ Check(tid, l, "P.frame.percent", "", PercentOK')
+              /\ Check(tid, l, "P.throttle", "", ThrottleOK')
+              /\ Check(tid, l, "P.max.draws", "", MaxDraws')
               /\ Check(tid, l, "P.finish", FinishKey, FinishOK')
-              /\ Check(tid, l, "P.ansi.line", LineKey, AnsiLine')
+              /\ Check(tid, l, "P.ansi.line", Where, AnsiLine')
               /\ Check(tid, l, "P.plain.ownline", OwnLineKey, PlainOwnLine')
               /\ Note(tid, l, "A.draws", Len(E.frames) = Len(r.frames))
               /\ Note(tid, l, "A.progress", E.progress = r.b.step /\ E.maxsteps = r.b.max)
